@@ -7,7 +7,7 @@ use unimock::*;
 
 pub struct ND(pub u8);
 
-#[unimock(api=MsgMock, unmock_with=[_, _, real_a2, _, _, _, _, _])]
+#[unimock(api=MsgMock, unmock_with=[_, _, real_a2, _, _, _, _, _, _])]
 trait Msg {
     fn a0(&self) -> u32;
     fn a1(&self, x: u8) -> u32;
@@ -16,6 +16,7 @@ trait Msg {
     fn sl(&self, x: &[u8], y: Vec<u8>) -> u32;
     fn nd(&self, x: ND, y: u8) -> u32;
     fn gn<T: 'static>(&self, x: T, y: u8) -> u32;
+    fn nd2(&self, x: ND, y: u8, z: ND) -> u32;
     fn prov(&self, x: u8) -> u32 { x as u32 }
 }
 fn real_a2(_: &impl Msg, x: u8, _y: &str) -> u32 { x as u32 }
@@ -46,6 +47,14 @@ fn main() {
     emit("nmi4", "NoMockImplementation", "sl", &["[1, 2]", "[3]"], "-", "", 0, 0, "", &caught(|| u.sl(&[1, 2], vec![3])));
     emit("nmi5", "NoMockImplementation", "nd", &[ND_, "9"], "-", "", 0, 0, "", &caught(|| u.nd(ND(1), 9)));
     emit("nmi6", "NoMockImplementation", "gn", &[ND_, "9"], "-", "", 0, 0, "", &caught(|| u.gn(5u64, 9)));
+    // arguments whose renderings repeat (separators are positional, not by value)
+    for (k, (a, b, c)) in [(1u8, 1u8, 1u8), (1, 1, 2), (1, 2, 1), (2, 1, 1), (1, 2, 2), (2, 1, 2), (2, 2, 1)].into_iter().enumerate() {
+        let mut zz = c;
+        let (sa, sb, sc) = (a.to_string(), b.to_string(), c.to_string());
+        emit(&format!("rep3_{k}"), "NoMockImplementation", "a3", &[&sa, &sb, &sc], "-", "", 0, 0, "", &caught(|| u.a3(&a, &&b, &mut zz)));
+    }
+    emit("rep_sl", "NoMockImplementation", "sl", &["[3]", "[3]"], "-", "", 0, 0, "", &caught(|| u.sl(&[3], vec![3])));
+    emit("rep_nd0", "NoMockImplementation", "nd2", &[ND_, "1", ND_], "-", "", 0, 0, "", &caught(|| u.nd2(ND(1), 1, ND(2))));
     // ---- NoMatchingCallPatterns
     let u = Unimock::new(MsgMock::a2.each_call(matching!(9, _)).returns(1u32)).no_verify_in_drop();
     emit("nmc", "NoMatchingCallPatterns", "a2", &["1", "\"x\""], "-", "", 0, 0, "", &caught(|| u.a2(1, "x")));
